@@ -967,14 +967,42 @@ func (c *Ctx) c08ResultFormats() {
 				}
 			}
 			nEnc := 0
+			// the Encode calls of Column.Write and of the helpers it calls directly; a helper's format operand is followed
+			// to the argument Column.Write passes
+			type encSite struct {
+				ci   ssa.CallInstruction
+				via  ssa.CallInstruction // the call of the helper in Column.Write (nil when direct)
+				host *ssa.Function
+			}
+			var encs []encSite
+			hosts := []encSite{{nil, nil, cw}}
 			for _, ci := range core.Calls(cw) {
-				f := core.StaticCallee(ci)
-				if f == nil || !core.MethodIs(f, "github.com/jackc/pgx/v5/pgtype", "Map", "Encode") {
-					continue
+				if h := core.StaticCallee(ci); h != nil && h != cw && c.P.InPkg(h, "wire") && h.Blocks != nil {
+					hosts = append(hosts, encSite{nil, ci, h})
 				}
+			}
+			for _, hst := range hosts {
+				for _, ci := range core.Calls(hst.host) {
+					if f := core.StaticCallee(ci); f != nil && core.MethodIs(f, "github.com/jackc/pgx/v5/pgtype", "Map", "Encode") {
+						encs = append(encs, encSite{ci, hst.via, hst.host})
+					}
+				}
+			}
+			for _, e := range encs {
 				nEnc++
-				a := ci.Common().Args
-				R.Check(fp != nil && len(a) >= 3 && core.StripConv(a[2]) == ssa.Value(fp), "C08.R4", "Column.Write:encodes-in-selected-format", c.at(ci), "every encoding of a value uses the format selected for its column (the one announced), whatever the value", "Encode(.., int16(format parameter), ..)", "an Encode call in Column.Write uses a format other than the selected one: the DataRow field is not in the announced format")
+				a := e.ci.Common().Args
+				var fv ssa.Value
+				if len(a) >= 3 {
+					fv = core.StripConv(a[2])
+					if prm, isP := fv.(*ssa.Parameter); isP && e.via != nil {
+						for i, hp := range e.host.Params {
+							if hp == prm && i < len(e.via.Common().Args) {
+								fv = core.StripConv(e.via.Common().Args[i])
+							}
+						}
+					}
+				}
+				R.Check(fp != nil && fv == ssa.Value(fp), "C08.R4", "Column.Write:encodes-in-selected-format", c.at(e.ci), "every encoding of a value uses the format selected for its column (the one announced), whatever the value", "Encode(.., int16(format parameter), ..)", "an Encode call in Column.Write uses a format other than the selected one: the DataRow field is not in the announced format")
 			}
 			R.Floor("C08.R4", "Encode calls in Column.Write", nEnc, 1)
 		}
